@@ -948,28 +948,11 @@ func r02_5(c *Ctx, rule string) {
 		c.ObUnreachable(rule, base+"/not-"+t.name, hc, assume, isReq, "a content request", "the entry is a "+t.name)
 	}
 	// hard link: statCopy.Linkname != ""
-	var lk []string
-	eng.Instrs(hc, func(in ssa.Instruction) {
-		bo, ok := in.(*ssa.BinOp)
-		if !ok || (bo.Op != token.EQL && bo.Op != token.NEQ) {
-			return
-		}
-		if s, ok := eng.ConstString(bo.Y); ok && s == "" && isFieldLoad(bo.X, "types.Stat.Linkname") {
-			k := x.KeyAtEntry(bo)
-			if bo.Op == token.EQL {
-				k = "!" + k
-			}
-			lk = append(lk, k)
-		}
-	})
-	if len(lk) == 0 {
+	lkPins := c.emptinessTests(hc, x, true, func(v ssa.Value) bool { return isFieldLoad(v, "types.Stat.Linkname") })
+	if len(lkPins) == 0 {
 		c.R.Fail(rule, base+"/not-hardlink", c.P.Pos(hc.Pos()), "HandleChange has no test of Linkname != \"\": hard links fall through to the regular-file arm")
 	} else {
-		assume := map[string]bool{}
-		for _, k := range lk {
-			assume[k] = true
-		}
-		c.ObUnreachable(rule, base+"/not-hardlink", hc, assume, isReq, "a content request", "the entry has a link name")
+		c.ObUnreachable(rule, base+"/not-hardlink", hc, lkPins, isReq, "a content request", "the entry has a link name")
 	}
 	c.ObReachable(rule, base+"/live", hc, nil, isReq, "a content request", "nothing is assumed")
 	// data callbacks only from processChange, with a writer
